@@ -45,6 +45,10 @@ type lfsServer struct {
 	user     string // who the requests are from (set by the harness before each command)
 	lockMode string // ok | 404 | 501 | 500 | 403
 	lastUploadAction map[string]string
+	pageSize int    // > 0: lock lists and lock verification are paginated (next_cursor = offset of the next page)
+	hashAlgo string // != "": `hash_algo` of every batch response
+	mutate   func(kind string, v map[string]interface{}) // corrupt a response just before it is sent (C18)
+	cursorsHanded map[string]bool
 }
 
 func newLfsServer() *lfsServer {
@@ -77,14 +81,51 @@ func (s *lfsServer) handle(w http.ResponseWriter, r *http.Request) {
 	s.mu.Lock()
 	defer s.mu.Unlock()
 	p := r.URL.Path
+	kindOf := ""
 	jsonOut := func(code int, v interface{}) {
 		w.Header().Set("Content-Type", "application/vnd.git-lfs+json")
 		w.WriteHeader(code)
+		if s.mutate != nil || (s.hashAlgo != "" && kindOf == "batch") {
+			b, _ := json.Marshal(v)
+			var m map[string]interface{}
+			if json.Unmarshal(b, &m) == nil {
+				if s.hashAlgo != "" && kindOf == "batch" {
+					m["hash_algo"] = s.hashAlgo
+				}
+				if s.mutate != nil {
+					s.mutate(kindOf, m)
+				}
+				json.NewEncoder(w).Encode(m)
+				return
+			}
+		}
 		json.NewEncoder(w).Encode(v)
+	}
+	// page: the slice [cursor, cursor+limit) and the next cursor ("" at the end)
+	page := func(n int, cursor string, limit int) (lo, hi int, next string) {
+		fmt.Sscan(cursor, &lo)
+		if lo > n {
+			lo = n
+		}
+		sz := s.pageSize
+		if limit > 0 && (sz == 0 || limit < sz) {
+			sz = limit
+		}
+		hi = n
+		if sz > 0 && lo+sz < n {
+			hi = lo + sz
+			next = fmt.Sprint(hi)
+			if s.cursorsHanded == nil {
+				s.cursorsHanded = map[string]bool{}
+			}
+			s.cursorsHanded[next] = true
+		}
+		return
 	}
 	switch {
 	case strings.HasSuffix(p, "/objects/batch"):
 		s.capture(r, body, "batch")
+		kindOf = "batch"
 		var req struct {
 			Operation string `json:"operation"`
 			Objects   []struct {
@@ -175,11 +216,20 @@ func (s *lfsServer) handle(w http.ResponseWriter, r *http.Request) {
 			LockedAt string            `json:"locked_at"`
 			Owner    map[string]string `json:"owner"`
 		}
+		kindOf = "lock-verify"
+		var vreq struct {
+			Cursor string `json:"cursor"`
+			Limit  int    `json:"limit"`
+		}
+		json.Unmarshal(body, &vreq)
 		out := struct {
-			Ours   []lk `json:"ours"`
-			Theirs []lk `json:"theirs"`
+			Ours   []lk   `json:"ours"`
+			Theirs []lk   `json:"theirs"`
+			Next   string `json:"next_cursor,omitempty"`
 		}{Ours: []lk{}, Theirs: []lk{}}
-		for _, l := range s.locks {
+		lo, hi, next := page(len(s.locks), vreq.Cursor, vreq.Limit)
+		out.Next = next
+		for _, l := range s.locks[lo:hi] {
 			e := lk{l.ID, l.Path, "2020-01-01T00:00:00Z", map[string]string{"name": l.Owner}}
 			if l.Owner == s.user {
 				out.Ours = append(out.Ours, e)
@@ -190,6 +240,7 @@ func (s *lfsServer) handle(w http.ResponseWriter, r *http.Request) {
 		jsonOut(200, out)
 	case strings.HasSuffix(p, "/unlock"):
 		s.capture(r, body, "lock-delete")
+		kindOf = "lock-delete"
 		id := strings.TrimSuffix(strings.TrimPrefix(p[strings.Index(p, "/locks/")+7:], ""), "/unlock")
 		var req struct {
 			Force bool `json:"force"`
@@ -210,6 +261,7 @@ func (s *lfsServer) handle(w http.ResponseWriter, r *http.Request) {
 	case strings.HasSuffix(p, "/locks"):
 		if r.Method == "POST" {
 			s.capture(r, body, "lock-create")
+			kindOf = "lock-create"
 			if s.lockMode != "ok" {
 				w.WriteHeader(map[string]int{"404": 404, "501": 501, "500": 500, "403": 403}[s.lockMode])
 				return
@@ -237,14 +289,24 @@ func (s *lfsServer) handle(w http.ResponseWriter, r *http.Request) {
 			LockedAt string            `json:"locked_at"`
 			Owner    map[string]string `json:"owner"`
 		}
+		kindOf = "lock-list"
 		out := struct {
-			Locks []lk `json:"locks"`
+			Locks []lk   `json:"locks"`
+			Next  string `json:"next_cursor,omitempty"`
 		}{Locks: []lk{}}
 		q := r.URL.Query()
+		var sel []lfsLock
 		for _, l := range s.locks {
 			if (q.Get("path") == "" || q.Get("path") == l.Path) && (q.Get("id") == "" || q.Get("id") == l.ID) {
-				out.Locks = append(out.Locks, lk{l.ID, l.Path, "2020-01-01T00:00:00Z", map[string]string{"name": l.Owner}})
+				sel = append(sel, l)
 			}
+		}
+		lim := 0
+		fmt.Sscan(q.Get("limit"), &lim)
+		lo, hi, next := page(len(sel), q.Get("cursor"), lim)
+		out.Next = next
+		for _, l := range sel[lo:hi] {
+			out.Locks = append(out.Locks, lk{l.ID, l.Path, "2020-01-01T00:00:00Z", map[string]string{"name": l.Owner}})
 		}
 		jsonOut(200, out)
 	default:
